@@ -140,6 +140,105 @@ def translate(repo):
     return {"C01/Gen.v": "\n".join(out)}
 
 
+# ================================================================================================
+# Part 2 (Gen2.v): check_cutoffs as code (not as identity), the X slices of _split_by_fh, the
+# dispatch of temporal_train_test_split.  `translate` above is unchanged (C07 / C08 also call it);
+# C01 calls `translate_all`.
+
+HEADER2 = """(* GENERATED by /verif/translator/split.py from %s and
+   sktime/utils/validation/forecasting.py -- do not edit, never committed *)
+From Coq Require Import ZArith List Bool.
+Require Import SkV.Lib.Base SkV.Lib.ZRange SkV.Lib.Slice SkV.C01.Model2 SkV.C01.Gen.
+Import ListNotations.
+Open Scope Z_scope.
+
+"""
+
+
+def _isinstance_array(tr, e, env):
+    """isinstance(cutoffs, (np.ndarray, pd.Index)) on the modelled argument (an integer array)."""
+    if len(e.args) == 2 and ast.unparse(e.args[1]) == "(np.ndarray, pd.Index)":
+        t, ty = tr.expr(e.args[0], env)
+        tr.need(ty, "L", e)
+        return "true", "B"
+    raise Unsupported("isinstance shape " + ast.unparse(e))
+
+
+def _sk_split(tr, e, env):
+    """sklearn's train_test_split(*series, shuffle=False, ...): stays modelled (a parameter)."""
+    if ast.unparse(e) != ("_train_test_split(*series, shuffle=False, stratify=None, "
+                          "test_size=test_size, train_size=train_size)"):
+        raise Unsupported("call of sklearn's train_test_split: " + ast.unparse(e))
+    a, ta = tr.expr(ast.Name(id="test_size", ctx=ast.Load()), env)
+    b, tb = tr.expr(ast.Name(id="train_size", ctx=ast.Load()), env)
+    tr.need(ta, "O", e)
+    tr.need(tb, "O", e)
+    return "(sk_split n %s %s)" % (a, b), "RP"
+
+
+SPLIT_BY_FH_ENV = {"y.index": ("index", "L"), "fh.is_relative": ("rel", "B"), "y.loc": ("y_loc", "LOC")}
+FUNCS2_VAL = [
+    dict(path="check_cutoffs", coq="gen_check_cutoffs", kind="rfun", ret="L",
+         params=[("cutoffs", "cutoffs", "L")],
+         skip_asserts=("assert np.issubdtype(cutoffs.dtype, np.integer)",)),
+]
+FUNCS2 = [
+    dict(path="CutoffSplitter._split", coq="gen_cutoff_split_any", kind="rgen",
+         params=[("@cutoffs", "cutoffs", "L"), ("@fh", "fh", "L"), ("@wl", "wl", "Z"), Y],
+         env={"self.cutoffs": ("cutoffs", "L"), "self.fh": ("fh", "L"),
+              "self.window_length": ("wl", "Z"), "y.shape[0]": ("n", "Z")}),
+    dict(path="CutoffSplitter.get_cutoffs", coq="gen_cutoff_cutoffs_any", kind="rfun", ret="L",
+         params=[("@cutoffs", "cutoffs", "L")], env={"self.cutoffs": ("cutoffs", "L")},
+         ignore=("y",)),
+    dict(path="SingleWindowSplitter.get_n_splits", coq="gen_single_n_splits", kind="fun",
+         params=[], ignore=("y",)),
+    dict(path="_split_by_fh", coq="gen_split_by_fh_X", kind="rfun", ret="P4",
+         params=[("@index", "index", "L"), ("@rel", "rel", "B"), ("y", "n", "Y"), FH,
+                 ("X", "x_present", "PRESENT")],
+         env=dict(SPLIT_BY_FH_ENV, **{"X.loc": ("x_loc", "LOC")})),
+    dict(path="temporal_train_test_split", coq="gen_tts", kind="rfun", ret="P",
+         params=[("@sk_split", "sk_split", "SKSPLIT"), ("@index", "index", "L"),
+                 ("@rel", "rel", "B"), ("y", "n", "Y"), ("X", "x_absent", "ABSENT"),
+                 ("test_size", "test_size", "O"), ("train_size", "train_size", "O"),
+                 ("fh", "fh", "OL")],
+         skip_stmts=("series = (y,) if X is None else (y, X)",)),
+]
+
+
+def translate2(repo):
+    from . import pyzx_c20 as px
+    with open(os.path.join(repo, SRC)) as f:
+        mod = ast.parse(f.read())
+    with open(os.path.join(repo, "sktime/utils/validation/forecasting.py")) as f:
+        vmod = ast.parse(f.read())
+    calls = dict(CALLS)
+    calls["len"] = _len
+    calls["isinstance"] = _isinstance_array
+    calls["np.sort"] = prim("(csort %s)", ["L"], "L")
+    calls["check_equal_time_index"] = const("(Ok tt)", "RU")
+    calls["_train_test_split"] = _sk_split
+    del calls["check_cutoffs"]
+    gens = {
+        "check_cutoffs": dict(coq="gen_check_cutoffs", fn=px.find(vmod, "check_cutoffs"),
+                              params=[("cutoffs", "L")], ret="RL"),
+        "_split_by_fh": dict(coq="gen_split_by_fh", fn=px.find(mod, "_split_by_fh"),
+                             params=[("@index", "L"), ("@rel", "B"), ("y", "Y"), ("fh", "L"),
+                                     ("X", "ABSENT")], ret="RP"),
+    }
+    out = [HEADER2 % SRC]
+    for cfg in FUNCS2_VAL:
+        out.append(px.translate_function_x(vmod, cfg, calls, gens))
+    for cfg in FUNCS2:
+        out.append(px.translate_function_x(mod, cfg, calls, gens))
+    return {"C01/Gen2.v": "\n".join(out)}
+
+
+def translate_all(repo):
+    files = translate(repo)
+    files.update(translate2(repo))
+    return files
+
+
 def _len(tr, e, env):
     if len(e.args) != 1:
         raise Unsupported("len arity")
@@ -153,4 +252,5 @@ def _len(tr, e, env):
 
 if __name__ == "__main__":
     import sys
-    print(translate(sys.argv[1] if len(sys.argv) > 1 else "/repo")["C01/Gen.v"])
+    for k, v in translate_all(sys.argv[1] if len(sys.argv) > 1 else "/repo").items():
+        print(v)
